@@ -314,7 +314,7 @@ def strategy_extract(tier):
 STAGES = [
     Stage(name="extract", kind="hyp", check=check_extract, classify=classify_extract, strategy=strategy_extract,
           budget={"quick": 250, "thorough": 4000}, key=lambda c: [c["s"], c["resolve"]],
-          floors={"all-in-range": 0.6, "rejected": 0.08, "repeated-key": 0.2, "border-key": 0.3, "with-resolution": 0.15},
+          floors={"all-in-range": 0.5, "rejected": 0.06, "repeated-key": 0.2, "border-key": 0.3, "with-resolution": 0.15},
           sample=lambda c: {"s": c["s"], "resolve": c["resolve"]}),
     Stage(name="enumeration", kind="enum", check=check_enumeration,
           classify=lambda c, i: ([f"m={len(c['rc'])}", f"n={len(c['fc'])}"], len(c["rc"]) >= 1 and len(c["fc"]) >= 1),
